@@ -2372,6 +2372,11 @@ func (c *Conn) notify(ctx context.Context, level alert.Level, desc alert.Descrip
 	}
 
 	shouldEncrypt := c.isHandshakeCompletedSuccessfully()
+	if common.LocalVersion.Equal(protocol.Version1_3) && common.LocalEpoch() > 0 {
+		// DTLS 1.3 has no unprotected records beyond epoch 0 [RFC 9147 Section 4]: an alert that
+		// aborts the handshake after the handshake keys were installed is protected under them.
+		shouldEncrypt = true
+	}
 
 	return c.writePackets(ctx, []*dtlsflight.Packet{
 		{
